@@ -20,14 +20,14 @@ CHECKS = {
     text="Every program up to the length bound over the store/load alphabet (2 pointers, offsets 0..2, sizes 8..32/64, both endiannesses) is executed symbolically once; for every pointer assignment "
          "the composed concrete result (loaded registers, with mem-with-mods results interpreted by replaying their ordered mods, and every byte of the memory window) must equal the byte-level execution; "
          "with the no-aliasing assumption only for assignments where different pointers do not overlap.",
-    note="Bound: length <=2 full alphabet, length 3 reduced (quick) / larger + length 4 reduced (thorough). Known findings: endianness lost in the write trace; aliasing window after a narrower store. Quick also runs all store-only triples and two length-4 families (any/store/store/load over two value registers; store/store/store/load over two offsets). Failing programs are delta-reduced to a minimal failing program before their signature is taken; shadowing is keyed by failure kind, endianness and configuration.",
+    note="Bound: length <=2 full alphabet, length 3 reduced (quick) / larger + length 4 reduced (thorough). Known findings: endianness lost in the write trace; aliasing window after a narrower store. Quick also runs all store-only triples and two length-4 families (any/store/store/load over two value registers; store/store/store/load over two offsets). Failing programs are delta-reduced to a minimal failing program before their signature is taken; shadowing is keyed by failure kind, endianness and configuration. Stores also take a constant source (kept as raw bytes by the memory model).",
     design="DESIGN.md section 3, C09"),
  "C10": dict(
     category="model_checking",
     technique="explicit-state BFS over process-global mutable state (module-level register objects' size/sf/etype/_subrefs, internals, regtype.cur, pending prefix) with transitions = decode+symbolic execution/evaluation; invariant = probe blocks evaluate identically (rebuilt and old map objects) in every reachable global state",
     text="Per ISA mode in a fresh process the global state is snapshotted; every spec-driven executable instruction is a transition (plus map evaluation and a failing decode); states are de-duplicated on the snapshot "
          "(restore fidelity and probe reproducibility asserted); in every new global state every probe block - the derived alphabet plus automatically detected sign-sensitive consumers - is rebuilt and evaluated on three concrete "
-         "states and the map objects built in the initial state are re-evaluated; all constants must be unchanged. Consumers are also searched per changed global object (an encoding of a sign-sensitive specification whose result depends on that very object), and the probe failures of a global state are attributed to every transition that reaches it.",
+         "states and the map objects built in the initial state are re-evaluated; all constants must be unchanged. Consumers are also searched per changed global object (an encoding of a sign-sensitive specification whose result depends on that very object), and the probe failures of a global state are attributed to every transition that reaches it. Every candidate instruction object is also executed three times on fresh mappers (the same decoded object is shared by every pass over its block).",
     note="Depth 2 (quick) / 3 (thorough); below the first level only the alphabet is applied. Known findings: semantics that call .signed()/set sf on shared registers (x86 ADD/DEC/SCAS -> IMUL, ARM, tricore, pic18, sh2) and ARM SETEND/BXJ changing internals.",
     design="DESIGN.md section 3, C10"),
  "C11": dict(
@@ -44,14 +44,14 @@ CHECKS = {
     technique="bounded exhaustive enumeration of expression trees; width and comp-tiling invariants checked on every construction/simplify/eval/slice result",
     text="Same enumeration as C01; every result object (built, simplified with each option set, evaluated under concrete and partial maps, sliced) "
          "must have the width dictated by construction and every reachable comp must tile [0,size) consistently with smask. A live mapper is also explored: every history (depth 3/4) of whole, byte and one-bit register writes; after each write the register value must have the register width and parts that tile it.",
-    note="Same bounds as C01. Trusted: width function of amc/gen/exprs.py and comps_ok of amc/ref/bv.py.",
+    note="Same bounds as C01. Trusted: width function of amc/gen/exprs.py and comps_ok of amc/ref/bv.py. Unknown leaves are also run with the complexity threshold on.",
     design="DESIGN.md section 3, C12"),
  "C13": dict(
     category="model_checking",
     technique="explicit-state BFS over operation histories on pools of shared expression objects; invariant = fingerprints of pre-existing members unchanged; pickle round trip of every object reached",
     text="From 5 root pools of deliberately shared objects, every history (depth 2 quick / 3 thorough) of ~40 operation kinds x all operand pairs is executed "
          "on the real API; after every transition the width and the denotation (independent walker, 36 valuations) of every pre-existing member must be unchanged; "
-         "sign-flag writes are observed through enclosing sign-sensitive nodes. Every produced expression, mapper and MemoryMap is pickled, restored and compared. (c) One live mapper: every history (depth 3/4) over whole/partial/one-bit register writes, memory writes, reads, read+use, m.use(), memory copies and evaluation/composition of another map in it; every expression read and every copy taken earlier keeps its denotation, and the mapper's content equals a replay of its writes alone (observers have no effect).",
+         "sign-flag writes are observed through enclosing sign-sensitive nodes. Every produced expression, mapper and MemoryMap is pickled, restored and compared. (c) One live mapper: every history (depth 3/4) over whole/partial/one-bit register writes, memory writes, reads, read+use, m.use(), memory copies and evaluation/composition of another map in it; every expression read and every copy taken earlier keeps its denotation, and the mapper's content equals a replay of its writes alone (observers have no effect). Restored registers must keep their named sub-registers; the observers include composing the mapper after a concrete state.",
     note="State = tuple of member fingerprints (sound for this property: it only observes width and denotation). Widening simplify may over-approximate the object it is applied to. "
          "Trusted: amc/ref/bv.py walker.",
     design="DESIGN.md section 3, C13"),
@@ -67,14 +67,14 @@ CHECKS = {
     category="model_checking",
     technique="bounded exhaustive enumeration of loader inputs (12 ELF machines x segment geometries x filesz/memsz classes x 3 page sizes; generated PE/Mach-O; HEX/SREC/raw; shipped samples) with a byte-for-byte comparison of the task memory against an independent segment table",
     text="Every image is loaded with load_program; every byte of every loadable segment must equal the file byte mapped there, [filesz,memsz) must read as zero (the generated files carry non-zero bytes after each segment), "
-         "the program counter must equal the entry point and read_instruction must return the file's bytes. Shipped samples are compared on their constant bytes (relocation slots may hold external symbols). Generated PE imports and generated dynamic ELF32/ELF64 executables (REL/RELA, up to 70000 dynamic symbols): exactly the slots named by the relocations hold the external symbol they bind. Raw/HEX/SREC images are relocated twice and must follow.",
+         "the program counter must equal the entry point and read_instruction must return the file's bytes. Shipped samples are compared on their constant bytes (relocation slots may hold external symbols). Generated PE imports and generated dynamic ELF32/ELF64 executables (REL/RELA, up to 70000 dynamic symbols): exactly the slots named by the relocations hold the external symbol they bind. Raw/HEX/SREC images are relocated twice and must follow. Mach-O images include a zero-fill segment that must be mapped; a raw task built after the data stream was read from must still hold the whole file.",
     note="Geometries: aligned, unaligned-congruent, two segments sharing a page, adjacent segments; filesz == memsz, bss tail, filesz 0. Known findings: loaders returning None for aarch64/avr/bpf/sh ELF and Mach-O images.",
     design="DESIGN.md section 3, C15"),
  "C16": dict(
     category="model_checking",
     technique="bounded exhaustive enumeration of structure definitions (<=3/4 fields over the field-kind alphabet, packed/natural, pointer size 32/64, unions, trailing variable-length fields) against a C layout calculator validated with gcc and python struct",
     text="For every definition: size, align_value, offsets and offset_of versus the C ABI layout (calculator cross-checked against gcc -m64/-m32 sizeof/_Alignof/offsetof tables on every run), "
-         "unpack values versus struct.unpack at the C offsets, pack() of the unpacked values versus the original bytes; LEB128 read/write on ~500 boundary values.",
+         "unpack values versus struct.unpack at the C offsets, pack() of the unpacked values versus the original bytes; LEB128 read/write on ~500 boundary values. Arrays of variable-length records (terminated, counted, LEB128 members) are decoded element by element.",
     note="Failing definitions containing a smaller failing definition are shadowed. ~90 known-finding signatures (pack() of arrays/nested/bitfields/variable fields, padding not emitted, packed alignment, nested struct at unaligned offset) in KNOWN_FINDINGS.json. One-bitfield-per-line members (merging validated against gcc), a union with tail padding, nested structs containing pointers and big-endian counted/bound fields are part of the alphabet; signatures name the nested aggregate type.",
     design="DESIGN.md section 3, C16"),
  "C17": dict(
@@ -90,7 +90,7 @@ CHECKS = {
     technique="explicit-state BFS over all block-insertion histories into cfg.graph (state = support/overlay/edges + inserted set) and exhaustive enumeration of sweep start addresses per ISA against an independent fetch loop and a maximal-run block model",
     text="(b) From one instruction stream every history of <=3 (thorough 4) insertions of contiguous runs is replayed on a fresh real graph; after each insertion the main support must hold pairwise-disjoint blocks whose extents equal their lengths, "
          "containing every inserted instruction exactly once, overlay unused, and a fall-through edge at every split. (a) For 14 ISAs and every start address of a 64-byte window of a synthetic code region: sweep addresses, maximal-run blocks "
-         "(delay slots included), support/raw bytes, slicing at every pair of boundaries, cutting at every boundary. (c) Every history (depth 3/4) of getblock / cut of the returned block / graph insertion on one lsweep object: getblock(a) must be the maximal run from a. Blocks are also cut at every non-boundary address (nothing removed); ISAs with delayed branches get every sequence of length 4 over {delayed branch, control flow, plain}.",
+         "(delay slots included), support/raw bytes, slicing at every pair of boundaries, cutting at every boundary. (c) Every history (depth 3/4) of getblock / cut of the returned block / graph insertion on one lsweep object: getblock(a) must be the maximal run from a. Blocks are also cut at every non-boundary address (nothing removed); ISAs with delayed branches get every sequence of length 4 over {delayed branch, control flow, plain}. The main region is also written into memory in three adjacent pieces cut inside instructions.",
     note="Known findings (15 signatures = relation of the inserted run to existing nodes x failure mode) listed in KNOWN_FINDINGS.json; histories extending a failing history are shadowed.",
     design="DESIGN.md section 3, C18"),
  "C19": dict(
@@ -98,7 +98,7 @@ CHECKS = {
     technique="bounded exhaustive enumeration of map pairs x configurations on the real merge(); per-location alternative-set membership via independent walker, plus composition with concrete states",
     text="All pairs of maps with <=2 writes over 7 location kinds x 6 value kinds, with/without path conditions, widening on/off, 3 complexity thresholds: "
          "for each written location the merged value must be unknown (top/vecw) or its alternatives must contain each input's value under every valuation "
-         "satisfying that input's condition; the same after C >> merged for concrete states C; no location written by neither input appears.",
+         "satisfying that input's condition; the same after C >> merged for concrete states C; no location written by neither input appears. Value kinds include a widened (unknown) value: a definite merged value for an unknown input is a violation; a map may redefine the pointer register the other map stores through.",
     note="Bound: <=2 writes per map; 6 valuations; pointer registers do not overlap. Flags may be unknown. Known finding: overlapping writes inside one input map (KNOWN_FINDINGS.json). Nine locations (incl. a store through a vector-valued pointer with displacement); path conditions on data registers and on the base register of the stores (the latter judged by the concrete consequence only). Known findings: stale recorded value with overlapping writes in one input; equality condition on a store base in the second input.",
     design="DESIGN.md section 3, C19"),
  "C02": dict(
